@@ -18,7 +18,7 @@ META = {
     "rule": (
         "exhaustive: every permutation up to the tier's bound x the 32 named statistics (27 with an independent "
         "definition, 5 weak) and every listing / count / set / generator method; generated: permutations up to "
-        "length 12 for the cheap statistics; classes Av(B) and bijections given as dicts (identity, the eight "
+        "length 16 for the cheap statistics, holeyness up to length 11; classes Av(B) and bijections given as dicts (identity, the eight "
         "symmetries, random maps, one perturbed value) for distribution_for_length / distribution_up_to / "
         "preserved_in / check_all_preservations / check_all_transformed / equally_distributed / "
         "jointly_equally_distributed; is_prime against trial division. Non-trivial: length >= 4 (statistics); "
@@ -439,7 +439,7 @@ def equi_cases(draw):
 def shard_generated(acc, shard, nshards, n_perm, n_bij, n_dist, n_equi, n_prime):
     lengths = st.sampled_from([8, 9, 9, 9, 10, 11, 11])
     engine.hyp_run(acc, "holeyness", check_holeyness, lengths.flatmap(gen.perm_of).map(list), 2 * n_perm, shard)
-    engine.hyp_run(acc, "perm", check_perm, gen.perms(8, 12).map(lambda p: {"p": list(p), "heavy": False}), n_perm, shard)
+    engine.hyp_run(acc, "perm", check_perm, gen.perms(8, 16).map(lambda p: {"p": list(p), "heavy": False}), n_perm, shard)
     engine.hyp_run(acc, "bijection", check_bijection, bijection_cases(), n_bij, shard)
     engine.hyp_run(acc, "distribution", check_distribution, distribution_cases(), n_dist, shard)
     engine.hyp_run(acc, "equidistribution", check_equidistribution, equi_cases(), n_equi, shard)
